@@ -13,7 +13,7 @@ def Ev (env : Env) (m : Mode) (ts : List Tok) (res : Rat × List Tok) : Prop :=
   ∀ n, 3 * ts.length + rank m ≤ n → rd env n m ts = some res
 
 def stop2 : List Tok → Bool
-  | .star :: _ | .slash :: _ => false
+  | .star :: _ | .slash :: _ | .pct :: _ => false
   | _ => true
 
 def stop1 : List Tok → Bool
@@ -91,6 +91,17 @@ theorem Ev.loop2_slash {acc w : Rat} {r r' : List Tok} {res : Rat × List Tok} (
     have b := h2 k (by simp [rank, List.length_cons] at hn ⊢; omega)
     simp [rd, a, b, hw]
 
+theorem Ev.loop2_pct {acc w : Rat} {r r' : List Tok} {res : Rat × List Tok} (hw : w ≠ 0)
+    (h1 : Ev env .unary r (w, r')) (h2 : Ev env (.loop2 (pyMod acc w)) r' res) (hl : r'.length < r.length) :
+    Ev env (.loop2 acc) (.pct :: r) res := by
+  intro n hn
+  cases n with
+  | zero => simp [rank] at hn
+  | succ k =>
+    have a := h1 k (by simp [rank, List.length_cons] at hn ⊢; omega)
+    have b := h2 k (by simp [rank, List.length_cons] at hn ⊢; omega)
+    simp [rd, a, b, hw]
+
 theorem Ev.loop2_stop {acc : Rat} {ts : List Tok} (h : stop2 ts = true) : Ev env (.loop2 acc) ts (acc, ts) := by
   intro n hn
   cases n with
@@ -156,35 +167,61 @@ theorem pp_one (e : E) : e.pp 1 = e.print := pp_plain (prec_pos e)
 theorem lt_append (a rest : List Tok) (h : 0 < a.length) : rest.length < (a ++ rest).length := by
   simp; omega
 
-/-- what reading the printed expression does at the three levels of the grammar -/
+/-- what reading the printed expression does at the levels of the grammar -/
 structure Reads (env : Env) (e : E) (v : Rat) : Prop where
-  atom : ∀ rest, Ev env .unary (e.pp 3 ++ rest) (v, rest)
-  prod : ∀ rest res, Ev env (.loop2 v) rest res → Ev env .term (e.pp 2 ++ rest) res
+  atom : ∀ rest, Ev env .unary (e.pp 4 ++ rest) (v, rest)
+  bare : ∀ rest, Ev env .unary (e.pp 5 ++ rest) (v, rest)     -- operand of `%`
+  prod : ∀ rest res, Ev env (.loop2 v) rest res → Ev env .term (e.pp 3 ++ rest) res
+  prod2 : ∀ rest res, Ev env (.loop2 v) rest res → Ev env .term (e.pp 2 ++ rest) res     -- right operand of `+`
   sum : ∀ rest res, stop2 rest = true → Ev env (.loop1 v) rest res → Ev env .expr (e.print ++ rest) res
 
-theorem atom_of_sum {e : E} {v : Rat} (hp : e.prec < 3)
+theorem atom_of_sum {e : E} {v : Rat} {lvl : Nat} (hp : e.prec < lvl)
     (hX : ∀ rest res, stop2 rest = true → Ev env (.loop1 v) rest res → Ev env .expr (e.print ++ rest) res) :
-    ∀ rest, Ev env .unary (e.pp 3 ++ rest) (v, rest) := by
+    ∀ rest, Ev env .unary (e.pp lvl ++ rest) (v, rest) := by
   intro rest
   rw [pp_paren hp]
-  simp only [List.cons_append, List.append_assoc, List.singleton_append]
+  simp only [List.cons_append, List.append_assoc]
   exact Ev.paren (hX (.rp :: rest) (v, .rp :: rest) rfl (Ev.loop1_stop rfl))
 
-theorem prod_of_atom {e : E} {v : Rat} (hp : e.pp 2 = e.pp 3)
-    (hU : ∀ rest, Ev env .unary (e.pp 3 ++ rest) (v, rest)) :
-    ∀ rest res, Ev env (.loop2 v) rest res → Ev env .term (e.pp 2 ++ rest) res := by
+theorem prod_of_atom {e : E} {v : Rat} {l1 l2 : Nat} (hp : e.pp l1 = e.pp l2)
+    (hU : ∀ rest, Ev env .unary (e.pp l2 ++ rest) (v, rest)) :
+    ∀ rest res, Ev env (.loop2 v) rest res → Ev env .term (e.pp l1 ++ rest) res := by
   intro rest res h
   rw [hp]
-  exact Ev.term (hU rest) h (lt_append _ _ (pp_pos 3 e))
+  exact Ev.term (hU rest) h (lt_append _ _ (pp_pos l2 e))
 
-theorem sum_of_prod {e : E} {v : Rat} (hp : 2 ≤ e.prec)
-    (hT : ∀ rest res, Ev env (.loop2 v) rest res → Ev env .term (e.pp 2 ++ rest) res) :
+theorem sum_of_prod {e : E} {v : Rat} (hp : 3 ≤ e.prec)
+    (hT : ∀ rest res, Ev env (.loop2 v) rest res → Ev env .term (e.pp 3 ++ rest) res) :
     ∀ rest res, stop2 rest = true → Ev env (.loop1 v) rest res → Ev env .expr (e.print ++ rest) res := by
   intro rest res hs h
-  have h2 : e.pp 2 = e.print := pp_plain hp
+  have h2 : e.pp 3 = e.print := pp_plain hp
   have := hT rest (v, rest) (Ev.loop2_stop hs)
   rw [h2] at this
   exact Ev.expr this h (lt_append _ _ (print_pos e))
+
+/-- everything from the atom level, for an expression that is printed without parentheses at every level up to 4 -/
+theorem of_atom {e : E} {v : Rat} (hp : 4 ≤ e.prec) (hU : ∀ rest, Ev env .unary (e.pp 4 ++ rest) (v, rest))
+    (hB : ∀ rest, Ev env .unary (e.pp 5 ++ rest) (v, rest)) : Reads env e v := by
+  have e3 : e.pp 3 = e.pp 4 := by rw [pp_plain (lvl := 3) (by omega), pp_plain (lvl := 4) hp]
+  have e2 : e.pp 2 = e.pp 4 := by rw [pp_plain (lvl := 2) (by omega), pp_plain (lvl := 4) hp]
+  have hT := prod_of_atom e3 hU
+  exact ⟨hU, hB, hT, prod_of_atom e2 hU, sum_of_prod (by omega) hT⟩
+
+/-- everything from the sum level, for a sum or difference (in parentheses at every level from 2) -/
+theorem of_sum {e : E} {v : Rat} (hp : e.prec = 1)
+    (hX : ∀ rest res, stop2 rest = true → Ev env (.loop1 v) rest res → Ev env .expr (e.print ++ rest) res) :
+    Reads env e v := by
+  have hU := atom_of_sum (lvl := 4) (by omega) hX
+  have e3 : e.pp 3 = e.pp 4 := by rw [pp_paren (lvl := 3) (by omega), pp_paren (lvl := 4) (by omega)]
+  have e2 : e.pp 2 = e.pp 4 := by rw [pp_paren (lvl := 2) (by omega), pp_paren (lvl := 4) (by omega)]
+  exact ⟨hU, atom_of_sum (by omega) hX, prod_of_atom e3 hU, prod_of_atom e2 hU, hX⟩
+
+/-- everything from the product level, for a product or quotient -/
+theorem of_prod {e : E} {v : Rat} (hp : e.prec = 3)
+    (hT : ∀ rest res, Ev env (.loop2 v) rest res → Ev env .term (e.pp 3 ++ rest) res) : Reads env e v := by
+  have hX := sum_of_prod (by omega) hT
+  have e2 : e.pp 2 = e.pp 3 := by rw [pp_plain (lvl := 2) (by omega), pp_plain (lvl := 3) (by omega)]
+  exact ⟨atom_of_sum (by omega) hX, atom_of_sum (by omega) hX, hT, by rw [e2]; exact hT, hX⟩
 
 theorem reads (env : Env) : ∀ (e : E) (v : Rat), e.eval env = some v → Reads env e v := by
   intro e
@@ -193,31 +230,29 @@ theorem reads (env : Env) : ∀ (e : E) (v : Rat), e.eval env = some v → Reads
     intro v h
     simp only [E.eval, Option.some.injEq] at h
     subst h
-    have hU : ∀ rest, Ev env .unary ((E.num q s).pp 3 ++ rest) (q, rest) := by
-      intro rest
-      have : (E.num q s).pp 3 = [.num q s] := by rw [pp_plain (by simp [E.prec])]; simp only [E.print]
-      rw [this]; exact Ev.num q s rest
-    have hT := prod_of_atom (e := .num q s) (by rw [pp_plain (lvl := 2) (by simp [E.prec]), pp_plain (lvl := 3) (by simp [E.prec])]) hU
-    exact ⟨hU, hT, sum_of_prod (by simp [E.prec]) hT⟩
+    have hp : ∀ lvl, lvl ≤ 5 → (E.num q s).pp lvl = [.num q s] := by
+      intro lvl hl; rw [pp_plain (by simp [E.prec]; omega)]; simp only [E.print]
+    exact of_atom (by simp [E.prec]) (by intro rest; rw [hp 4 (by omega)]; exact Ev.num q s rest)
+      (by intro rest; rw [hp 5 (by omega)]; exact Ev.num q s rest)
   | var x =>
     intro v h
     simp only [E.eval] at h
-    have hU : ∀ rest, Ev env .unary ((E.var x).pp 3 ++ rest) (v, rest) := by
-      intro rest
-      have : (E.var x).pp 3 = [.id x] := by rw [pp_plain (by simp [E.prec])]; simp only [E.print]
-      rw [this]; exact Ev.id h rest
-    have hT := prod_of_atom (e := .var x) (by rw [pp_plain (lvl := 2) (by simp [E.prec]), pp_plain (lvl := 3) (by simp [E.prec])]) hU
-    exact ⟨hU, hT, sum_of_prod (by simp [E.prec]) hT⟩
+    have hp : ∀ lvl, lvl ≤ 5 → (E.var x).pp lvl = [.id x] := by
+      intro lvl hl; rw [pp_plain (by simp [E.prec]; omega)]; simp only [E.print]
+    exact of_atom (by simp [E.prec]) (by intro rest; rw [hp 4 (by omega)]; exact Ev.id h rest)
+      (by intro rest; rw [hp 5 (by omega)]; exact Ev.id h rest)
   | neg a iha =>
     intro v h
     simp only [E.eval, Option.map_eq_some_iff] at h
     obtain ⟨va, ha, rfl⟩ := h
-    have hU : ∀ rest, Ev env .unary ((E.neg a).pp 3 ++ rest) (-va, rest) := by
+    have hU : ∀ rest, Ev env .unary ((E.neg a).pp 4 ++ rest) (-va, rest) := by
       intro rest
-      have : (E.neg a).pp 3 = .minus :: a.pp 3 := by rw [pp_plain (by simp [E.prec])]; simp only [E.print]
+      have : (E.neg a).pp 4 = .minus :: a.pp 4 := by rw [pp_plain (by simp [E.prec])]; simp only [E.print]
       rw [this]; exact Ev.neg ((iha va ha).atom rest)
-    have hT := prod_of_atom (e := .neg a) (by rw [pp_plain (lvl := 2) (by simp [E.prec]), pp_plain (lvl := 3) (by simp [E.prec])]) hU
-    exact ⟨hU, hT, sum_of_prod (by simp [E.prec]) hT⟩
+    have e3 : (E.neg a).pp 3 = (E.neg a).pp 4 := by
+      rw [pp_plain (lvl := 3) (by simp [E.prec]), pp_plain (lvl := 4) (by simp [E.prec])]
+    have hX := sum_of_prod (e := .neg a) (by simp [E.prec]) (prod_of_atom e3 hU)
+    exact of_atom (by simp [E.prec]) hU (atom_of_sum (by simp [E.prec]) hX)
   | add a b iha ihb =>
     intro v h
     simp only [E.eval, bind, Option.bind] at h
@@ -229,14 +264,11 @@ theorem reads (env : Env) : ∀ (e : E) (v : Rat), e.eval env = some v → Reads
       | some vb =>
         simp only [ha, hb, pure, Option.some.injEq] at h
         subst h
-        have hX : ∀ rest res, stop2 rest = true → Ev env (.loop1 (va + vb)) rest res →
-            Ev env .expr ((E.add a b).print ++ rest) res := by
-          intro rest res hs hc
-          simp only [E.print, pp_one, List.append_assoc, List.cons_append]
-          exact (iha va ha).sum _ res rfl
-            (Ev.loop1_plus ((ihb vb hb).prod rest (vb, rest) (Ev.loop2_stop hs)) hc (lt_append _ _ (pp_pos 2 b)))
-        have hU := atom_of_sum (e := .add a b) (by simp [E.prec]) hX
-        exact ⟨hU, prod_of_atom (by rw [pp_paren (lvl := 2) (by simp [E.prec]), pp_paren (lvl := 3) (by simp [E.prec])]) hU, hX⟩
+        refine of_sum (by simp [E.prec]) ?_
+        intro rest res hs hc
+        simp only [E.print, pp_one, List.append_assoc, List.cons_append]
+        exact (iha va ha).sum _ res rfl
+          (Ev.loop1_plus ((ihb vb hb).prod2 rest (vb, rest) (Ev.loop2_stop hs)) hc (lt_append _ _ (pp_pos 2 b)))
   | sub a b iha ihb =>
     intro v h
     simp only [E.eval, bind, Option.bind] at h
@@ -248,14 +280,11 @@ theorem reads (env : Env) : ∀ (e : E) (v : Rat), e.eval env = some v → Reads
       | some vb =>
         simp only [ha, hb, pure, Option.some.injEq] at h
         subst h
-        have hX : ∀ rest res, stop2 rest = true → Ev env (.loop1 (va - vb)) rest res →
-            Ev env .expr ((E.sub a b).print ++ rest) res := by
-          intro rest res hs hc
-          simp only [E.print, pp_one, List.append_assoc, List.cons_append]
-          exact (iha va ha).sum _ res rfl
-            (Ev.loop1_minus ((ihb vb hb).prod rest (vb, rest) (Ev.loop2_stop hs)) hc (lt_append _ _ (pp_pos 2 b)))
-        have hU := atom_of_sum (e := .sub a b) (by simp [E.prec]) hX
-        exact ⟨hU, prod_of_atom (by rw [pp_paren (lvl := 2) (by simp [E.prec]), pp_paren (lvl := 3) (by simp [E.prec])]) hU, hX⟩
+        refine of_sum (by simp [E.prec]) ?_
+        intro rest res hs hc
+        simp only [E.print, pp_one, List.append_assoc, List.cons_append]
+        exact (iha va ha).sum _ res rfl
+          (Ev.loop1_minus ((ihb vb hb).prod rest (vb, rest) (Ev.loop2_stop hs)) hc (lt_append _ _ (pp_pos 3 b)))
   | mul a b iha ihb =>
     intro v h
     simp only [E.eval, bind, Option.bind] at h
@@ -267,14 +296,12 @@ theorem reads (env : Env) : ∀ (e : E) (v : Rat), e.eval env = some v → Reads
       | some vb =>
         simp only [ha, hb, pure, Option.some.injEq] at h
         subst h
-        have hT : ∀ rest res, Ev env (.loop2 (va * vb)) rest res → Ev env .term ((E.mul a b).pp 2 ++ rest) res := by
-          intro rest res hc
-          have : (E.mul a b).pp 2 = a.pp 2 ++ .star :: b.pp 3 := by rw [pp_plain (by simp [E.prec])]; simp only [E.print]
-          rw [this]
-          simp only [List.append_assoc, List.cons_append]
-          exact (iha va ha).prod _ res (Ev.loop2_star ((ihb vb hb).atom rest) hc (lt_append _ _ (pp_pos 3 b)))
-        have hX := sum_of_prod (e := .mul a b) (by simp [E.prec]) hT
-        exact ⟨atom_of_sum (by simp [E.prec]) hX, hT, hX⟩
+        refine of_prod (by simp [E.prec]) ?_
+        intro rest res hc
+        have : (E.mul a b).pp 3 = a.pp 3 ++ .star :: b.pp 4 := by rw [pp_plain (by simp [E.prec])]; simp only [E.print]
+        rw [this]
+        simp only [List.append_assoc, List.cons_append]
+        exact (iha va ha).prod _ res (Ev.loop2_star ((ihb vb hb).atom rest) hc (lt_append _ _ (pp_pos 4 b)))
   | div a b iha ihb =>
     intro v h
     simp only [E.eval, bind, Option.bind] at h
@@ -289,14 +316,50 @@ theorem reads (env : Env) : ∀ (e : E) (v : Rat), e.eval env = some v → Reads
         · simp [hz] at h
         · simp only [hz, if_false, pure, Option.some.injEq] at h
           subst h
-          have hT : ∀ rest res, Ev env (.loop2 (va / vb)) rest res → Ev env .term ((E.div a b).pp 2 ++ rest) res := by
+          refine of_prod (by simp [E.prec]) ?_
+          intro rest res hc
+          have : (E.div a b).pp 3 = a.pp 3 ++ .slash :: b.pp 4 := by rw [pp_plain (by simp [E.prec])]; simp only [E.print]
+          rw [this]
+          simp only [List.append_assoc, List.cons_append]
+          exact (iha va ha).prod _ res (Ev.loop2_slash hz ((ihb vb hb).atom rest) hc (lt_append _ _ (pp_pos 4 b)))
+  | mod a b iha ihb =>
+    intro v h
+    simp only [E.eval, bind, Option.bind] at h
+    cases ha : a.eval env with
+    | none => simp [ha] at h
+    | some va =>
+      cases hb : b.eval env with
+      | none => simp [ha, hb] at h
+      | some vb =>
+        simp only [ha, hb] at h
+        by_cases hz : vb = 0
+        · simp [hz] at h
+        · simp only [hz, if_false, pure, Option.some.injEq] at h
+          subst h
+          -- the text `(<a> % <b>)` is read as one signed atom
+          have hraw : ∀ rest, Ev env .unary ((E.mod a b).print ++ rest) (pyMod va vb, rest) := by
+            intro rest
+            simp only [E.print, List.cons_append, List.append_assoc]
+            refine Ev.paren (Ev.expr (v := pyMod va vb) (r := .rp :: rest) ?_ (Ev.loop1_stop rfl) ?_)
+            · exact Ev.term ((iha va ha).bare _)
+                (Ev.loop2_pct hz ((ihb vb hb).bare _) (Ev.loop2_stop rfl) (lt_append _ _ (pp_pos 5 b)))
+                (lt_append _ _ (pp_pos 5 a))
+            · have := pp_pos 5 a
+              simp; omega
+          have p2 : (E.mod a b).pp 2 = (E.mod a b).print := pp_plain (by simp [E.prec])
+          have hT2 : ∀ rest res, Ev env (.loop2 (pyMod va vb)) rest res → Ev env .term ((E.mod a b).pp 2 ++ rest) res := by
             intro rest res hc
-            have : (E.div a b).pp 2 = a.pp 2 ++ .slash :: b.pp 3 := by rw [pp_plain (by simp [E.prec])]; simp only [E.print]
-            rw [this]
-            simp only [List.append_assoc, List.cons_append]
-            exact (iha va ha).prod _ res (Ev.loop2_slash hz ((ihb vb hb).atom rest) hc (lt_append _ _ (pp_pos 3 b)))
-          have hX := sum_of_prod (e := .div a b) (by simp [E.prec]) hT
-          exact ⟨atom_of_sum (by simp [E.prec]) hX, hT, hX⟩
+            rw [p2]
+            exact Ev.term (hraw rest) hc (lt_append _ _ (print_pos _))
+          have hX : ∀ rest res, stop2 rest = true → Ev env (.loop1 (pyMod va vb)) rest res →
+              Ev env .expr ((E.mod a b).print ++ rest) res := by
+            intro rest res hs hc
+            exact Ev.expr (Ev.term (hraw rest) (Ev.loop2_stop hs) (lt_append _ _ (print_pos _))) hc
+              (lt_append _ _ (print_pos _))
+          have hU := atom_of_sum (e := .mod a b) (lvl := 4) (by simp [E.prec]) hX
+          have e3 : (E.mod a b).pp 3 = (E.mod a b).pp 4 := by
+            rw [pp_paren (lvl := 3) (by simp [E.prec]), pp_paren (lvl := 4) (by simp [E.prec])]
+          exact ⟨hU, atom_of_sum (by simp [E.prec]) hX, prod_of_atom e3 hU, hT2, hX⟩
 
 /-- reading the printed tokens of an expression gives its value -/
 theorem evalToks_print (env : Env) (e : E) (v : Rat) (h : e.eval env = some v) : evalToks env e.print = some v := by
@@ -381,6 +444,16 @@ theorem PEv.loop2_slash {acc w : E} {r r' : List Tok} {res : E × List Tok} (h1 
     have b := h2 k (by simp [prank, List.length_cons] at hn ⊢; omega)
     simp [parse, a, b]
 
+theorem PEv.loop2_pct {acc w : E} {r r' : List Tok} {res : E × List Tok} (h1 : PEv .unary r (w, r'))
+    (h2 : PEv (.loop2 (.mod acc w)) r' res) (hl : r'.length < r.length) : PEv (.loop2 acc) (.pct :: r) res := by
+  intro n hn
+  cases n with
+  | zero => simp [prank] at hn
+  | succ k =>
+    have a := h1 k (by simp [prank, List.length_cons] at hn ⊢; omega)
+    have b := h2 k (by simp [prank, List.length_cons] at hn ⊢; omega)
+    simp [parse, a, b]
+
 theorem PEv.loop2_stop {acc : E} {ts : List Tok} (h : stop2 ts = true) : PEv (.loop2 acc) ts (acc, ts) := by
   intro n hn
   cases n with
@@ -420,93 +493,132 @@ theorem PEv.loop1_stop {acc : E} {ts : List Tok} (h : stop1 ts = true) : PEv (.l
     | cons t r => cases t <;> simp_all [parse, stop1]
 
 structure Parses (e : E) : Prop where
-  atom : ∀ rest, PEv .unary (e.pp 3 ++ rest) (e, rest)
-  prod : ∀ rest res, PEv (.loop2 e) rest res → PEv .term (e.pp 2 ++ rest) res
+  atom : ∀ rest, PEv .unary (e.pp 4 ++ rest) (e, rest)
+  bare : ∀ rest, PEv .unary (e.pp 5 ++ rest) (e, rest)     -- operand of `%`
+  prod : ∀ rest res, PEv (.loop2 e) rest res → PEv .term (e.pp 3 ++ rest) res
+  prod2 : ∀ rest res, PEv (.loop2 e) rest res → PEv .term (e.pp 2 ++ rest) res     -- right operand of `+`
   sum : ∀ rest res, stop2 rest = true → PEv (.loop1 e) rest res → PEv .expr (e.print ++ rest) res
 
-theorem patom_of_sum {e : E} (hp : e.prec < 3)
+theorem patom_of_sum {e : E} {lvl : Nat} (hp : e.prec < lvl)
     (hX : ∀ rest res, stop2 rest = true → PEv (.loop1 e) rest res → PEv .expr (e.print ++ rest) res) :
-    ∀ rest, PEv .unary (e.pp 3 ++ rest) (e, rest) := by
+    ∀ rest, PEv .unary (e.pp lvl ++ rest) (e, rest) := by
   intro rest
   rw [pp_paren hp]
   simp only [List.cons_append, List.append_assoc]
   exact PEv.paren (hX (.rp :: rest) (e, .rp :: rest) rfl (PEv.loop1_stop rfl))
 
-theorem pprod_of_atom {e : E} (hp : e.pp 2 = e.pp 3) (hU : ∀ rest, PEv .unary (e.pp 3 ++ rest) (e, rest)) :
-    ∀ rest res, PEv (.loop2 e) rest res → PEv .term (e.pp 2 ++ rest) res := by
+theorem pprod_of_atom {e : E} {l1 l2 : Nat} (hp : e.pp l1 = e.pp l2)
+    (hU : ∀ rest, PEv .unary (e.pp l2 ++ rest) (e, rest)) :
+    ∀ rest res, PEv (.loop2 e) rest res → PEv .term (e.pp l1 ++ rest) res := by
   intro rest res h
   rw [hp]
-  exact PEv.term (hU rest) h (lt_append _ _ (pp_pos 3 e))
+  exact PEv.term (hU rest) h (lt_append _ _ (pp_pos l2 e))
 
-theorem psum_of_prod {e : E} (hp : 2 ≤ e.prec)
-    (hT : ∀ rest res, PEv (.loop2 e) rest res → PEv .term (e.pp 2 ++ rest) res) :
+theorem psum_of_prod {e : E} (hp : 3 ≤ e.prec)
+    (hT : ∀ rest res, PEv (.loop2 e) rest res → PEv .term (e.pp 3 ++ rest) res) :
     ∀ rest res, stop2 rest = true → PEv (.loop1 e) rest res → PEv .expr (e.print ++ rest) res := by
   intro rest res hs h
-  have h2 : e.pp 2 = e.print := pp_plain hp
+  have h2 : e.pp 3 = e.print := pp_plain hp
   have := hT rest (e, rest) (PEv.loop2_stop hs)
   rw [h2] at this
   exact PEv.expr this h (lt_append _ _ (print_pos e))
+
+/-- everything from the atom level, for an expression that is printed without parentheses at every level up to 4 -/
+theorem pof_atom {e : E} (hp : 4 ≤ e.prec) (hU : ∀ rest, PEv .unary (e.pp 4 ++ rest) (e, rest))
+    (hB : ∀ rest, PEv .unary (e.pp 5 ++ rest) (e, rest)) : Parses e := by
+  have e3 : e.pp 3 = e.pp 4 := by rw [pp_plain (lvl := 3) (by omega), pp_plain (lvl := 4) hp]
+  have e2 : e.pp 2 = e.pp 4 := by rw [pp_plain (lvl := 2) (by omega), pp_plain (lvl := 4) hp]
+  have hT := pprod_of_atom e3 hU
+  exact ⟨hU, hB, hT, pprod_of_atom e2 hU, psum_of_prod (by omega) hT⟩
+
+/-- everything from the sum level, for a sum or difference (in parentheses at every level from 2) -/
+theorem pof_sum {e : E} (hp : e.prec = 1)
+    (hX : ∀ rest res, stop2 rest = true → PEv (.loop1 e) rest res → PEv .expr (e.print ++ rest) res) :
+    Parses e := by
+  have hU := patom_of_sum (lvl := 4) (by omega) hX
+  have e3 : e.pp 3 = e.pp 4 := by rw [pp_paren (lvl := 3) (by omega), pp_paren (lvl := 4) (by omega)]
+  have e2 : e.pp 2 = e.pp 4 := by rw [pp_paren (lvl := 2) (by omega), pp_paren (lvl := 4) (by omega)]
+  exact ⟨hU, patom_of_sum (by omega) hX, pprod_of_atom e3 hU, pprod_of_atom e2 hU, hX⟩
+
+/-- everything from the product level, for a product or quotient -/
+theorem pof_prod {e : E} (hp : e.prec = 3)
+    (hT : ∀ rest res, PEv (.loop2 e) rest res → PEv .term (e.pp 3 ++ rest) res) : Parses e := by
+  have hX := psum_of_prod (by omega) hT
+  have e2 : e.pp 2 = e.pp 3 := by rw [pp_plain (lvl := 2) (by omega), pp_plain (lvl := 3) (by omega)]
+  exact ⟨patom_of_sum (by omega) hX, patom_of_sum (by omega) hX, hT, by rw [e2]; exact hT, hX⟩
 
 theorem parses : ∀ (e : E), Parses e := by
   intro e
   induction e with
   | num q s =>
-    have hU : ∀ rest, PEv .unary ((E.num q s).pp 3 ++ rest) (.num q s, rest) := by
-      intro rest
-      have : (E.num q s).pp 3 = [.num q s] := by rw [pp_plain (by simp [E.prec])]; simp only [E.print]
-      rw [this]; exact PEv.num q s rest
-    have hT := pprod_of_atom (e := .num q s) (by rw [pp_plain (lvl := 2) (by simp [E.prec]), pp_plain (lvl := 3) (by simp [E.prec])]) hU
-    exact ⟨hU, hT, psum_of_prod (by simp [E.prec]) hT⟩
+    have hp : ∀ lvl, lvl ≤ 5 → (E.num q s).pp lvl = [.num q s] := by
+      intro lvl hl; rw [pp_plain (by simp [E.prec]; omega)]; simp only [E.print]
+    exact pof_atom (by simp [E.prec]) (by intro rest; rw [hp 4 (by omega)]; exact PEv.num q s rest)
+      (by intro rest; rw [hp 5 (by omega)]; exact PEv.num q s rest)
   | var x =>
-    have hU : ∀ rest, PEv .unary ((E.var x).pp 3 ++ rest) (.var x, rest) := by
-      intro rest
-      have : (E.var x).pp 3 = [.id x] := by rw [pp_plain (by simp [E.prec])]; simp only [E.print]
-      rw [this]; exact PEv.id x rest
-    have hT := pprod_of_atom (e := .var x) (by rw [pp_plain (lvl := 2) (by simp [E.prec]), pp_plain (lvl := 3) (by simp [E.prec])]) hU
-    exact ⟨hU, hT, psum_of_prod (by simp [E.prec]) hT⟩
+    have hp : ∀ lvl, lvl ≤ 5 → (E.var x).pp lvl = [.id x] := by
+      intro lvl hl; rw [pp_plain (by simp [E.prec]; omega)]; simp only [E.print]
+    exact pof_atom (by simp [E.prec]) (by intro rest; rw [hp 4 (by omega)]; exact PEv.id x rest)
+      (by intro rest; rw [hp 5 (by omega)]; exact PEv.id x rest)
   | neg a iha =>
-    have hU : ∀ rest, PEv .unary ((E.neg a).pp 3 ++ rest) (.neg a, rest) := by
+    have hU : ∀ rest, PEv .unary ((E.neg a).pp 4 ++ rest) (.neg a, rest) := by
       intro rest
-      have : (E.neg a).pp 3 = .minus :: a.pp 3 := by rw [pp_plain (by simp [E.prec])]; simp only [E.print]
+      have : (E.neg a).pp 4 = .minus :: a.pp 4 := by rw [pp_plain (by simp [E.prec])]; simp only [E.print]
       rw [this]; exact PEv.neg (iha.atom rest)
-    have hT := pprod_of_atom (e := .neg a) (by rw [pp_plain (lvl := 2) (by simp [E.prec]), pp_plain (lvl := 3) (by simp [E.prec])]) hU
-    exact ⟨hU, hT, psum_of_prod (by simp [E.prec]) hT⟩
+    have e3 : (E.neg a).pp 3 = (E.neg a).pp 4 := by
+      rw [pp_plain (lvl := 3) (by simp [E.prec]), pp_plain (lvl := 4) (by simp [E.prec])]
+    have hX := psum_of_prod (e := .neg a) (by simp [E.prec]) (pprod_of_atom e3 hU)
+    exact pof_atom (by simp [E.prec]) hU (patom_of_sum (by simp [E.prec]) hX)
   | add a b iha ihb =>
-    have hX : ∀ rest res, stop2 rest = true → PEv (.loop1 (.add a b)) rest res →
-        PEv .expr ((E.add a b).print ++ rest) res := by
-      intro rest res hs hc
-      simp only [E.print, pp_one, List.append_assoc, List.cons_append]
-      exact iha.sum _ res rfl
-        (PEv.loop1_plus (ihb.prod rest (b, rest) (PEv.loop2_stop hs)) hc (lt_append _ _ (pp_pos 2 b)))
-    have hU := patom_of_sum (e := .add a b) (by simp [E.prec]) hX
-    exact ⟨hU, pprod_of_atom (by rw [pp_paren (lvl := 2) (by simp [E.prec]), pp_paren (lvl := 3) (by simp [E.prec])]) hU, hX⟩
+    refine pof_sum (by simp [E.prec]) ?_
+    intro rest res hs hc
+    simp only [E.print, pp_one, List.append_assoc, List.cons_append]
+    exact iha.sum _ res rfl
+      (PEv.loop1_plus (ihb.prod2 rest (b, rest) (PEv.loop2_stop hs)) hc (lt_append _ _ (pp_pos 2 b)))
   | sub a b iha ihb =>
-    have hX : ∀ rest res, stop2 rest = true → PEv (.loop1 (.sub a b)) rest res →
-        PEv .expr ((E.sub a b).print ++ rest) res := by
-      intro rest res hs hc
-      simp only [E.print, pp_one, List.append_assoc, List.cons_append]
-      exact iha.sum _ res rfl
-        (PEv.loop1_minus (ihb.prod rest (b, rest) (PEv.loop2_stop hs)) hc (lt_append _ _ (pp_pos 2 b)))
-    have hU := patom_of_sum (e := .sub a b) (by simp [E.prec]) hX
-    exact ⟨hU, pprod_of_atom (by rw [pp_paren (lvl := 2) (by simp [E.prec]), pp_paren (lvl := 3) (by simp [E.prec])]) hU, hX⟩
+    refine pof_sum (by simp [E.prec]) ?_
+    intro rest res hs hc
+    simp only [E.print, pp_one, List.append_assoc, List.cons_append]
+    exact iha.sum _ res rfl
+      (PEv.loop1_minus (ihb.prod rest (b, rest) (PEv.loop2_stop hs)) hc (lt_append _ _ (pp_pos 3 b)))
   | mul a b iha ihb =>
-    have hT : ∀ rest res, PEv (.loop2 (.mul a b)) rest res → PEv .term ((E.mul a b).pp 2 ++ rest) res := by
-      intro rest res hc
-      have : (E.mul a b).pp 2 = a.pp 2 ++ .star :: b.pp 3 := by rw [pp_plain (by simp [E.prec])]; simp only [E.print]
-      rw [this]
-      simp only [List.append_assoc, List.cons_append]
-      exact iha.prod _ res (PEv.loop2_star (ihb.atom rest) hc (lt_append _ _ (pp_pos 3 b)))
-    have hX := psum_of_prod (e := .mul a b) (by simp [E.prec]) hT
-    exact ⟨patom_of_sum (by simp [E.prec]) hX, hT, hX⟩
+    refine pof_prod (by simp [E.prec]) ?_
+    intro rest res hc
+    have : (E.mul a b).pp 3 = a.pp 3 ++ .star :: b.pp 4 := by rw [pp_plain (by simp [E.prec])]; simp only [E.print]
+    rw [this]
+    simp only [List.append_assoc, List.cons_append]
+    exact iha.prod _ res (PEv.loop2_star (ihb.atom rest) hc (lt_append _ _ (pp_pos 4 b)))
   | div a b iha ihb =>
-    have hT : ∀ rest res, PEv (.loop2 (.div a b)) rest res → PEv .term ((E.div a b).pp 2 ++ rest) res := by
+    refine pof_prod (by simp [E.prec]) ?_
+    intro rest res hc
+    have : (E.div a b).pp 3 = a.pp 3 ++ .slash :: b.pp 4 := by rw [pp_plain (by simp [E.prec])]; simp only [E.print]
+    rw [this]
+    simp only [List.append_assoc, List.cons_append]
+    exact iha.prod _ res (PEv.loop2_slash (ihb.atom rest) hc (lt_append _ _ (pp_pos 4 b)))
+  | mod a b iha ihb =>
+    have hraw : ∀ rest, PEv .unary ((E.mod a b).print ++ rest) (.mod a b, rest) := by
+      intro rest
+      simp only [E.print, List.cons_append, List.append_assoc]
+      refine PEv.paren (PEv.expr (v := .mod a b) (r := .rp :: rest) ?_ (PEv.loop1_stop rfl) ?_)
+      · exact PEv.term (iha.bare _)
+          (PEv.loop2_pct (ihb.bare _) (PEv.loop2_stop rfl) (lt_append _ _ (pp_pos 5 b)))
+          (lt_append _ _ (pp_pos 5 a))
+      · have := pp_pos 5 a
+        simp; omega
+    have p2 : (E.mod a b).pp 2 = (E.mod a b).print := pp_plain (by simp [E.prec])
+    have hT2 : ∀ rest res, PEv (.loop2 (.mod a b)) rest res → PEv .term ((E.mod a b).pp 2 ++ rest) res := by
       intro rest res hc
-      have : (E.div a b).pp 2 = a.pp 2 ++ .slash :: b.pp 3 := by rw [pp_plain (by simp [E.prec])]; simp only [E.print]
-      rw [this]
-      simp only [List.append_assoc, List.cons_append]
-      exact iha.prod _ res (PEv.loop2_slash (ihb.atom rest) hc (lt_append _ _ (pp_pos 3 b)))
-    have hX := psum_of_prod (e := .div a b) (by simp [E.prec]) hT
-    exact ⟨patom_of_sum (by simp [E.prec]) hX, hT, hX⟩
+      rw [p2]
+      exact PEv.term (hraw rest) hc (lt_append _ _ (print_pos _))
+    have hX : ∀ rest res, stop2 rest = true → PEv (.loop1 (.mod a b)) rest res →
+        PEv .expr ((E.mod a b).print ++ rest) res := by
+      intro rest res hs hc
+      exact PEv.expr (PEv.term (hraw rest) (PEv.loop2_stop hs) (lt_append _ _ (print_pos _))) hc
+        (lt_append _ _ (print_pos _))
+    have hU := patom_of_sum (e := .mod a b) (lvl := 4) (by simp [E.prec]) hX
+    have e3 : (E.mod a b).pp 3 = (E.mod a b).pp 4 := by
+      rw [pp_paren (lvl := 3) (by simp [E.prec]), pp_paren (lvl := 4) (by simp [E.prec])]
+    exact ⟨hU, patom_of_sum (by simp [E.prec]) hX, pprod_of_atom e3 hU, hT2, hX⟩
 
 /-- the printed tokens of an expression are read back as exactly that expression -/
 theorem parseToks_print (e : E) : parseToks e.print = some e := by
@@ -632,6 +744,7 @@ theorem agree (env : Env) : ∀ n, Agree env n := by
               | nil => simp
               | cons t2 r3 => cases t2 <;> simp [hw]
         | plus => simp [rd, parse, valOf]
+        | pct => simp [rd, parse, valOf]
         | star => simp [rd, parse, valOf]
         | slash => simp [rd, parse, valOf]
         | rp => simp [rd, parse, valOf]
@@ -671,6 +784,14 @@ theorem agree (env : Env) : ∀ n, Agree env n := by
           congr 1
           funext wr
           split <;> simp_all
+        | pct =>
+          have := step2 r accE acc .mod (fun a b => if b = 0 then none else some (pyMod a b)) hacc
+            (by intro w wv hw; simp [E.eval, hacc, hw, bind, Option.bind]) (by intro w hw; simp [E.eval, hacc, hw, bind, Option.bind])
+          simp only [rd, parse]
+          rw [← this]
+          congr 1
+          funext wr
+          split <;> simp_all
         | _ => simp [rd, parse, valOf, hacc]
     · -- `+ term` / `- term` …
       intro ts accE acc hacc
@@ -694,6 +815,7 @@ theorem agree (env : Env) : ∀ n, Agree env n := by
         cases t with
         | star => simp only [parse]; exact nstep2 r accE .mul (by intro w; simp [E.eval, hacc, bind, Option.bind])
         | slash => simp only [parse]; exact nstep2 r accE .div (by intro w; simp [E.eval, hacc, bind, Option.bind])
+        | pct => simp only [parse]; exact nstep2 r accE .mod (by intro w; simp [E.eval, hacc, bind, Option.bind])
         | _ => simp [parse, valOf, hacc]
     · intro ts accE hacc
       cases ts with
